@@ -51,6 +51,21 @@ func genPlanC14(t *simrt.Tape, tier string) interface{} {
 		p.Conf.VanishRST = t.Draw(2) == 0
 		p.Conf.RegOut = 0
 	}
+	if t.Draw(8) == 0 {
+		// a long multi-step authentication: many round trips, then a rejection (or an error)
+		k := 6 + t.Draw(9)
+		p.Conf.AuthOut = nil
+		for i := 0; i < k; i++ {
+			p.Conf.AuthOut = append(p.Conf.AuthOut, 2)
+		}
+		p.Conf.AuthOut = append(p.Conf.AuthOut, []int{1, 3, 5}[t.Draw(3)])
+		sc := []Step{{Op: "auto"}, {Op: "auto", Choice: t.Draw(4)}}
+		for i := 0; i < k+2; i++ {
+			sc = append(sc, Step{Op: "auto", Choice: t.Draw(4)})
+		}
+		p.Scripts[0] = sc
+		p.Conf.VanishIn = ""
+	}
 	if t.Draw(6) == 0 {
 		// the server itself is closed while a handshake is inside a callback: the pending
 		// connections are refused connections like any other
@@ -241,7 +256,7 @@ func init() {
 		Run:    runC14,
 		MaxSim: 3 * time.Hour,
 		Rule: "C03's plan space against a full ServerBuilder server, 1-4 concurrent scripted clients per run mixing cooperative ones, clients that vanish (FIN/RST) at a chosen step and random words over the handshake alphabet; " +
-			"authentication outcomes biased to errors/rejections/round trips, registration errors, Server.Close called from inside a callback of a pending handshake; each client keeps reading for 90 simulated seconds; oracle: refused client sees the connection closed, no callbacks, server end closed, session goroutine census; " +
+			"authentication outcomes biased to errors/rejections/round trips, registration errors, authentications of 6-14 round trips before a rejection, Server.Close called from inside a callback of a pending handshake; each client keeps reading for 90 simulated seconds; oracle: refused client sees the connection closed, no callbacks, server end closed, session goroutine census; " +
 			"non-trivial = at least one scripted client connected; distinct = distinct (plan JSON, event-log hash)",
 	})
 }
